@@ -53,7 +53,6 @@ package openapi
 //@   opt maprange deterministic
 //@   loop 1 invariant own: keys.arr == 0 || sinceEntry(keys)
 //@   property C09
-//@   modifies all
 
 // ---- generated output does not depend on map iteration order (C09) --------------------------------
 // Every function of this package that ranges over a map is either proved independent of the iteration order
@@ -65,22 +64,18 @@ package openapi
 //@   opt inline none
 //@   opt loopframes none
 //@   property C09
-//@   modifies all
 //@ func ExtensionsFromExpr
 //@   opt maprange deterministic
 //@   opt inline none
 //@   opt loopframes none
 //@   property C09
-//@   modifies all
 //@ func MarshalJSON
 //@   opt maprange deterministic
 //@   opt inline none
 //@   opt loopframes none
 //@   property C09
-//@   modifies all
 //@ func MarshalYAML
 //@   opt maprange deterministic
 //@   opt inline none
 //@   opt loopframes none
 //@   property C09
-//@   modifies all
